@@ -32,8 +32,8 @@ var atomKinds = []atomKind{
 	{"minCount", map[string]any{"minCount": 1}, []any{"v"}, []any{}, nil, nil},
 	{"maxCount", map[string]any{"maxCount": 1}, []any{"v"}, []any{"v", "w"}, nil, nil},
 	{"exactCount", map[string]any{"exactCount": 2}, []any{"v", "w"}, []any{"v"}, nil, nil},
-	{"minLength", map[string]any{"minLength": 3}, []any{"abcd"}, []any{"ab"}, nil, nil},
-	{"maxLength", map[string]any{"maxLength": 3}, []any{"ab"}, []any{"abcd"}, nil, nil},
+	{"minLength", map[string]any{"minLength": 3}, []any{"abc"}, []any{"ab"}, nil, nil},
+	{"maxLength", map[string]any{"maxLength": 3}, []any{"abc"}, []any{"abcd"}, nil, nil},
 	{"exactLength", map[string]any{"exactLength": 3}, []any{"abc"}, []any{"abcd"}, nil, nil},
 	{"pattern", map[string]any{"pattern": "^a.*z$"}, []any{"abcz"}, []any{"zzz"}, nil, nil},
 	{"in", map[string]any{"in": []any{"x", "y"}}, []any{"x"}, []any{"q"}, nil, nil},
@@ -53,6 +53,20 @@ var atomKinds = []atomKind{
 	{"lessThanOrEqualsToProperty", map[string]any{"lessThanOrEqualsToProperty": "ex.b%d"}, []any{2}, []any{3}, []any{2}, []any{2}},
 	{"equalsToProperty", map[string]any{"equalsToProperty": "ex.b%d"}, []any{"x"}, []any{"x"}, []any{"x"}, []any{"y"}},
 	{"disjointWithProperty", map[string]any{"disjointWithProperty": "ex.b%d"}, []any{"x"}, []any{"x"}, []any{"y"}, []any{"x"}},
+	// the same constraints with witnesses on the other side of / exactly at the boundary
+	{"exactLengthShort", map[string]any{"exactLength": 3}, []any{"abc"}, []any{"ab"}, nil, nil},
+	{"exactCountMore", map[string]any{"exactCount": 2}, []any{"v", "w"}, []any{"u", "v", "w"}, nil, nil},
+	{"maxCountZeroValues", map[string]any{"maxCount": 1}, []any{}, []any{"v", "w"}, nil, nil},
+	{"minCountTwo", map[string]any{"minCount": 2}, []any{"v", "w"}, []any{"v"}, nil, nil},
+	{"lessThanPropertyEqual", map[string]any{"lessThanProperty": "ex.b%d"}, []any{1}, []any{2}, []any{2}, []any{2}},
+	{"lessThanOrEqualsStrict", map[string]any{"lessThanOrEqualsToProperty": "ex.b%d"}, []any{1}, []any{3}, []any{2}, []any{2}},
+	{"minInclusiveAbove", map[string]any{"minInclusive": 5}, []any{6}, []any{4}, nil, nil},
+	{"maxInclusiveFloat", map[string]any{"maxInclusive": 5.5}, []any{5.5}, []any{5.75}, nil, nil},
+	{"minExclusiveFloat", map[string]any{"minExclusive": 5.5}, []any{5.75}, []any{5.5}, nil, nil},
+	{"inMixed", map[string]any{"in": []any{"x", 7, true}}, []any{true}, []any{false}, nil, nil},
+	{"containsAllOne", map[string]any{"containsAll": []any{"x"}}, []any{"x"}, []any{"y"}, nil, nil},
+	{"containsSomeAll", map[string]any{"containsSome": []any{"x", "y"}}, []any{"x", "y"}, []any{"w", "z"}, nil, nil},
+	{"patternUnanchored", map[string]any{"pattern": "b+c"}, []any{"abbc"}, []any{"abd"}, nil, nil},
 }
 
 type logicNode struct {
